@@ -86,3 +86,4 @@ CFG.setdefault('trusted_extra', []).append(
     'transaction returned an error" from shard/shard.go; the translator reads exactly that bracket off the four shard operations and '
     'exits 3 on any other shape (a cache transaction settled inside the storage transaction breaks this obligation)')
 
+CFG['rule'] = CFG['rule'] + ' ' + 'Obligation TxOrder (gen_tx_order.py): the storage transaction ends before the cache transaction is settled, in all four shard operations.'
